@@ -76,12 +76,15 @@ fn first_diff(a: &str, b: &str) -> String {
 
 pub struct SerdeJudge;
 
-fn has_non_finite(m: &Module) -> bool {
-    let mut bad = false;
+/// 0 = only finite real literals, 1 = an infinity (YAML carries it, JSON does not), 2 = a NaN
+fn non_finite(m: &Module) -> u8 {
+    let mut bad = 0u8;
     m.walk_cards(&mut |c| {
         if let ir::C::Float(f) = c {
-            if !f.is_finite() {
-                bad = true;
+            if f.is_nan() {
+                bad = 2;
+            } else if !f.is_finite() {
+                bad = bad.max(1);
             }
         }
     });
@@ -93,8 +96,9 @@ impl Judge for SerdeJudge {
         "C11"
     }
     fn judge(&self, m: &Module, _cfg: Option<&CfgLite>) -> JR {
-        if has_non_finite(m) {
-            return JR::Skip("non-finite real literal (JSON/YAML cannot carry it)".into());
+        let nf = non_finite(m);
+        if nf == 2 {
+            return JR::Skip("NaN literal (JSON cannot carry it, and NaN payload bits are not part of any format)".into());
         }
         let real = lower::module(m);
         let compiled = match std::panic::catch_unwind(|| compile(lower::module(m), CompileOptions::new())) {
@@ -104,6 +108,10 @@ impl Judge for SerdeJudge {
         };
         let base = compiled.as_ref().map(image);
         for fmt in ["json", "yaml"] {
+            if nf == 1 && fmt == "json" {
+                // JSON has no infinity; YAML (.inf / -.inf) does and must bring it back
+                continue;
+            }
             let back: RealModule = match round(fmt, &real) {
                 Ok(b) => b,
                 Err(e) => return JR::Fail { class: format!("module-{fmt}:roundtrip-error"), what: format!("a source module does not survive {fmt}: {e}") },
@@ -561,8 +569,8 @@ fn families(tier: Tier) -> &'static Vec<Box<dyn Family>> {
     use cvx_core::gen_errloc::FErrInject;
     use cvx_core::gen_resolve::{FDigitNames, FResolve};
     match tier {
-        Tier::Quick => QUICK.get_or_init(|| vec![Box::new(FDigitNames), Box::new(FKinds), Box::new(FStmt::new(1)), Box::new(FClosureNest), Box::new(FErrInject::new())]),
-        Tier::Thorough => THOROUGH.get_or_init(|| vec![Box::new(FDigitNames), Box::new(FKinds), Box::new(FStmt::new(1)), Box::new(FClosureNest), Box::new(FErrInject::new()), Box::new(FStmt::new(2)), Box::new(FResolve)]),
+        Tier::Quick => QUICK.get_or_init(|| vec![Box::new(cvx_core::gen_more::FInfLiterals), Box::new(FDigitNames), Box::new(FKinds), Box::new(FStmt::new(1)), Box::new(FClosureNest), Box::new(FErrInject::new())]),
+        Tier::Thorough => THOROUGH.get_or_init(|| vec![Box::new(cvx_core::gen_more::FInfLiterals), Box::new(FDigitNames), Box::new(FKinds), Box::new(FStmt::new(1)), Box::new(FClosureNest), Box::new(FErrInject::new()), Box::new(FStmt::new(2)), Box::new(FResolve)]),
     }
 }
 
@@ -582,7 +590,7 @@ impl Check for C11 {
             rule: format!("(1) every module of the families {:?}: JSON and YAML -> back -> identical source, compile -> byte-identical program image (bytecode, data, labels, variable ids/names, version, trace); the compiled program through JSON / CBOR / bincode -> field-wise equal image and the same run (result, globals, host log, error trace). (2) programs with every count of globals 0..{n} and of extra cards 0..{n} (labels and trace entries cross every capacity step of the decoders) through the 3 formats: image + run incl. a late error whose trace needs the decoded tables; plus large images (300 / 600 globals, 500 / 1500 cards, one string literal of 100, 4090, 4096, 4100, 5000, 70000 bytes: bytecode and data sections beyond 4 KiB and 64 KiB). (3) HandleTable<u32>, CaoHashMap<u32,u32> and CaoHashMap<String,u32> with every entry count 0..{n} x 3 formats: len, get for present and absent keys, iteration, and every follow-up history of depth 2 over insert / remove / entry on the decoded object against a BTreeMap. (4) {} owned values of depth <= 2 over nil, ints, finite reals, strings, tables (also as keys): insert_value -> OwnedValue -> 3 formats -> insert_value into a second VM -> deep-equal with order; the same for roots in which one runtime object is referenced several times (three values of one table, key and value of one entry, at two depths, through a shared middle table): the owned form is the tree expansion. 'states' = distinct program images / cases", fams.iter().map(|f| format!("{}={}", f.name(), f.len())).collect::<Vec<_>>(), owned_universe().len(), n = counts(tier)),
             bound: format!("counts 0..{}", counts(tier)),
             exhaustive: true,
-            assumptions: vec!["non-finite reals are excluded for JSON / YAML sources (format limitation)".into()],
+            assumptions: vec!["NaN literals are excluded for source round trips; infinities are excluded for JSON only (format limitation) and must survive YAML".into()],
             explanation: "all encoders / decoders are the crate's own serde implementations driven through serde_json, serde_yaml, ciborium and bincode".into(),
         }
     }
